@@ -177,6 +177,58 @@ def r04a(ctx):
         raise AnalysisError('pit_features_calc: ModAttrFeaturesCalculator creation not found')
 
 
+def bias_worlds(repo, fn, sp):
+    """Polynomials (in the spec entries) a size / ops cost function returns when the layer has
+    a bias and when it has none: conditional expressions, ``if`` statements and int(<test>)
+    indicators on ``spec['_parameters']['bias'] is [not] None`` are all resolved per world.
+    Returns (P_present, P_absent, other) with other = tests on anything else than the bias."""
+    from .. import poly
+    from ..util import paths_split
+    bias = ('sub', ('sub', sp, ('const', '_parameters')), ('const', 'bias'))
+
+    def world_of(a, pol):
+        """True: bias present, False: absent, None: not a bias test"""
+        if a == ('isnone', bias):
+            return not pol
+        if a[0] == 'cmp' and a[1] in ('is', 'is not') and bias in (a[2], a[3]) and \
+                NONE in (a[2], a[3]):
+            return (a[1] == 'is not') == pol
+        if a[0] == 'un' and a[1] == 'not':
+            w = world_of(a[2], pol)
+            return None if w is None else not w
+        return None
+
+    def resolve(t, present):
+        if isinstance(t, tuple):
+            if t and t[0] in ('cmp', 'isnone', 'un'):
+                w = world_of(t, True)
+                if w is not None:
+                    return ('const', w == present)
+            t = tuple(resolve(x, present) for x in t)
+            if t and t[0] == 'call' and is_call(t, 'builtins.int', 'builtins.float') and \
+                    len(t[2]) == 1 and t[2][0][0] == 'const' and isinstance(t[2][0][1], bool):
+                return ('const', int(t[2][0][1]))
+            if t and t[0] == 'ifexp' and t[1][0] == 'const' and isinstance(t[1][1], bool):
+                return t[2] if t[1][1] else t[3]
+        return t
+    res = {True: [], False: []}
+    other = []
+    for p in returning(paths_split(repo, fn)):
+        ws = [world_of(a, pol) for a, pol in p.assumptions]
+        other += [a for (a, pol), w in zip(p.assumptions, ws) if w is None]
+        for present in (True, False):
+            if any(w is not None and w != present for w in ws):
+                continue
+            t = resolve(inline_globals(repo, p.retval), present)
+            try:
+                P = poly.to_poly(t)
+            except Exception:       # noqa: BLE001
+                P = None
+            if P not in res[present]:
+                res[present].append(P)
+    return res[True], res[False], other
+
+
 def r04b(ctx):
     repo = ctx.repo
     specs = cost_specs(repo)
@@ -187,29 +239,37 @@ def r04b(ctx):
             raise AnalysisError(f'cost spec {sname} not found')
         for reg in si.regs:
             sp = ('param', reg.fn.params[0])
-            want_atom = ('isnone', ('sub', ('sub', sp, ('const', '_parameters')),
-                                    ('const', 'bias')))
-            for p in returning(paths(repo, reg.fn)):
-                t = inline_globals(repo, p.retval)      # small helpers (a shared bias term)
-                ifs = [x for x in subterms(t) if x[0] == 'ifexp']
-                ind = [x for x in subterms(t)
-                       if is_call(x, 'builtins.int', 'builtins.float') and len(x[2]) == 1 and
-                       x[2][0] in (('cmp', 'is not', want_atom[1], NONE),
-                                   ('un', 'not', ('cmp', 'is', want_atom[1], NONE)))]
-                n += 1
-                present = (('un', 'not', ('cmp', 'is', want_atom[1], NONE)),
-                           ('cmp', 'is not', want_atom[1], NONE))
-                absent = (('cmp', 'is', want_atom[1], NONE),
-                          ('un', 'not', ('cmp', 'is not', want_atom[1], NONE)))
-                ok = (len(ifs) == 1 and not ind and (
-                    (ifs[0][1] in present and _num(ifs[0][2]) == 1 and _num(ifs[0][3]) == 0) or
-                    (ifs[0][1] in absent and _num(ifs[0][2]) == 0 and _num(ifs[0][3]) == 1))) or \
-                    (len(ind) == 1 and not ifs)
-                ctx.ob('R04b', f'{sname}[{reg.pattern}] bias term', ok,
-                       "bias counted iff spec['_parameters']['bias'] is not None" if ok else
-                       f'{reg.fn.name} returns {short(t, 200)}: the bias must be counted exactly '
-                       f"when spec['_parameters']['bias'] is not None (the predicate export uses "
-                       f'to create the bias)', f'{reg.module.relpath}:{reg.fn.node.lineno}')
+            pres, absn, other = bias_worlds(repo, reg.fn, sp)
+            n += 1
+            why = ''
+            if len(pres) != 1 or len(absn) != 1 or pres[0] is None or absn[0] is None:
+                why = 'the result is not one polynomial of the spec per bias world'
+            else:
+                from .. import poly
+                D = poly.add(pres[0], absn[0], -1)
+                kern = ('sub', sp, ('const', 'kernel_size'))
+                if not D:
+                    why = 'the result does not depend on the presence of a bias'
+                elif any(c < 0 for c in D.values()):
+                    why = 'a bias makes the cost smaller'
+                elif not absn[0]:
+                    why = 'without a bias the layer costs nothing (the weights are not counted)'
+                elif any(mentions(m, lambda y: y == kern) for m in D):
+                    why = ('the bias term grows with the kernel size (one bias per output '
+                           'element is expected)')
+                elif any(c != 1 for c in D.values()) or len(D) != 1:
+                    why = 'the bias is not counted exactly once per output element'
+            ok = not why
+            ctx.ob('R04b', f'{sname}[{reg.pattern}] bias term', ok,
+                   "one bias per output element, counted iff spec['_parameters']['bias'] is not "
+                   "None" if ok else
+                   f'{reg.fn.name}: {why} (with bias: '
+                   f'{short(poly.from_poly(pres[0]), 90) if pres and pres[0] is not None else "?"}'
+                   f'; without: '
+                   f'{short(poly.from_poly(absn[0]), 90) if absn and absn[0] is not None else "?"}'
+                   f'): the bias must be counted exactly when '
+                   f"spec['_parameters']['bias'] is not None (the predicate export uses to "
+                   f'create the bias)', f'{reg.module.relpath}:{reg.fn.node.lineno}')
     ctx.floor('R04b', 'size/ops cost functions', n, 10)
 
 
